@@ -87,7 +87,7 @@ theorem Stage.frame_final (st : Stage f keep a b q vq l A r t Y l' r') (inv : f.
       intro k hk hkt
       rcases mem_put hk with e | e
       · rw [e] at hkt ⊢
-        exact ⟨leaf_of_text inv.valid ra.hgb hkt, fun e' => h3 (e' ▸ handle_mem_handles t)⟩
+        exact ⟨leaf_of_text inv.valid ra.hgb hkt, fun e' => h3 (e' ▸ fs_handle_mem_handles t)⟩
       · obtain ⟨hl, hg, _⟩ := st.text_kid inv ra.sq e hkt
         exact ⟨hl, not_text_leaf_of_parent nd hx hg hl⟩)
   exact ⟨cx', h', hs'.trans hs1⟩
@@ -117,7 +117,7 @@ theorem Stage.kept_final (st : Stage f keep a b q vq l A r t Y l' r') (inv : f.I
     · simp only [Function.comp]
       rw [st.put ra.ha]
       have hzL : z ∈ handlesList (l' ++ t :: r') := by
-        rw [handlesList_append, handlesList_cons]
+        rw [fs_handlesList_append, handlesList_cons]
         exact List.mem_append_right _ (List.mem_append_left _ hzt)
       apply mem_mergeOpt _ _ hzL
       intro hc k hk hkt hzk
@@ -168,8 +168,8 @@ theorem Stage.kept_final (st : Stage f keep a b q vq l A r t Y l' r') (inv : f.I
     rw [st.put ra.ha]
     have hzL' : z ∈ handlesList (l' ++ t :: r') := by
       have := mem_mid_of_ne hzL hzA
-      rw [handlesList_append] at this
-      rw [handlesList_append, handlesList_cons]
+      rw [fs_handlesList_append] at this
+      rw [fs_handlesList_append, handlesList_cons]
       rcases List.mem_append.1 this with h | h
       · exact List.mem_append_left _ h
       · exact List.mem_append_right _ (List.mem_append_right _ h)
